@@ -1,16 +1,32 @@
 """C09 - Rules hold on every reported row and fire on their schedule."""
-CONTRACT_MODULES = ['types_rules', 'types_terms', 'simulator_interfaces', 'simulator_ssa', 'simulator_delay', 'simulator_volume', 'simulator_delayvolume', 'simulator_queue', 'random_', 'lineage_model']
+CONTRACT_MODULES = ['types_rules', 'types_terms', 'simulator_interfaces', 'simulator_ssa', 'simulator_delay', 'simulator_volume', 'simulator_delayvolume', 'simulator_queue', 'random_', 'lineage_model', 'lineage_sim']
+PRELOAD = ['lineage']
 SPEC_MODULES = ['functions']
 LEVEL = 'proof'
 ASSUMPTIONS = [
     'exact float equality flag == time is taken as real equality (scheduled times are exact grid elements by the statement)',
     'rule objects are immutable after initialisation (definitional clauses execS/execP)',
     '"a dt rule is applied exactly once per elapsed step" follows from the step clauses (rules first; rule_step = 1 exactly after a non-firing step, i.e. on arrival at a grid time) by induction over iterations (argument)',
-    'lineage single-cell simulator loop (SimulateSingleCell) and the deterministic right-hand side are not under contract yet: for lineage models only the registration of rules is proved',
+    'lineage single-cell loop: rules first in declaration order with the grid step, rule-step flag, rows get the rule-updated state (contracts/lineage_sim.py); the interface virtual methods of the lineage interface are abstract contracts',
+    'the delta clock and the time grid are compared in exact arithmetic; floating-point drift between an accumulated delta clock and np.arange time points (e.g. step 0.1) can shift a dt-rule application across a row boundary - outside this family',
 ]
 TRUSTED = []
 EXPLANATION = ('Rule classes against their meaning (additive sum, assignment to species/parameter, Euler ode step), schedule predicate of execute_rule, frequency flags, '
-               'rules applied in declaration order with the interface dt (fold invariant), rules-first and rule-step clauses of the SSA / delay / volume step relations, '
+               'rules applied in declaration order with the interface dt (fold invariant), rules-first and rule-step clauses of the SSA / delay / volume / delay+volume / lineage single-cell step relations (a dt rule step exactly when the delta clock fires), '
                'each rule registered exactly once for plain and lineage models.')
-LEVEL_TEXT = 'Deductive proof for all rule sets / states / schedules on the plain stochastic simulators; lineage simulator loop not covered.'
+LEVEL_TEXT = 'Deductive proof for all rule sets / states / schedules on the stochastic simulators including the lineage single-cell loop.'
 LEVEL_NOTE = 'See assumptions.'
+
+import os
+_HERE = os.path.dirname(os.path.dirname(os.path.abspath(__file__)))
+
+
+def _sweep(seed, rec):
+    spec = dict(seed=seed)
+    if rec is not None:
+        spec['part'] = 'lineage' if rec['fuc'].startswith('lineage::') else 'plain'
+    src = open(os.path.join(_HERE, 'native', 'C09_sweep.py')).read()
+    return src.replace("json.loads(sys.argv[1]) if len(sys.argv) > 1 else {}", repr(spec))
+
+
+NATIVE_SWEEPS = {'*': _sweep}
